@@ -16,9 +16,13 @@ def stName : ST → String
   | .math => "Math" | .concatenation => "Concatenation" | .intersection => "Intersection"
   | .union => "Union"
 
+/-- the array-constant mark (crate-private `ArrayPart`, observed through the `verif_array_part` hook) -/
+def arrName : Arr → String
+  | .none => "" | .array => "~Array" | .row => "~Row"
+
 def dumpTokens (l : List Tok) : String :=
   if l.isEmpty then "-"
-  else ",".intercalate (l.map fun t => s!"{ttName t.ty}.{stName t.sub}:{encodeStr t.val}")
+  else ",".intercalate (l.map fun t => s!"{ttName t.ty}.{stName t.sub}:{encodeStr t.val}{arrName t.arr}")
 
 def textReply : Res (List Char) → String
   | .ok t => encodeStr t
